@@ -36,7 +36,7 @@ def _chunk(args):
     return out, res.distinct
 
 
-def run(trace_module, consts, traces, jobs=8, timeout=900):
+def run(trace_module, consts, traces, jobs=8, timeout=400):
     """traces: list of {"ev": [...]} (raw events with t, no adv). Returns list of (accepted, reached, length), states."""
     if not traces:
         return [], 0
